@@ -105,6 +105,19 @@ PROPS = {
                    "the implementation is run on mutated/truncated/hostile records x option combinations x sticky reader faults in isolated worker processes (panic -> outcome, watchdog -> hang, memory cap) and every case is re-run under four chunking styles",
         level_note=COMMON_NOTE,
     ),
+    "C17": dict(
+        title="Header validation implements the WARC field table",
+        lean_modules=["Gowarc.Props.C17"],
+        n_quick=3000, n_thorough=40000,
+        required_theorems=["C17_table", "C17_mandatory", "C17_validators", "C17_record_types", "C17_warn", "C17_strict", "C17_strict_result", "C17_occurrence"],
+        model_assumptions=["time.Parse(RFC3339), net.ParseIP and the WHATWG URL parser are oracles (their verdicts are supplied with each case)",
+                           "the standard's table in Spec/FieldTable.lean is a hand transcription of ISO 28500 (WARC 1.0/1.1); unsupported WARC versions are not judged"],
+        design_ref="DESIGN.md section 5, C17",
+        level_text="C17_table: the field table extracted from headerfielddef.go on this run equals, cell by cell, the hand-transcribed table of the WARC standards (kernel decide); C17_warn: under warn the findings of validateHeader ARE the defects "
+                   "the table defines (one per defect, header untouched, record returned); C17_strict: accepted iff no defect; C17_occurrence: every occurrence is judged by a row of the standard's table with the standard's value types. "
+                   "Correspondence on every field x record type x version cell with valid/invalid values, multiplicities 0-3 and random defect mixes; independent Go oracle with its own copy of the table",
+        level_note=COMMON_NOTE,
+    ),
 }
 
 
